@@ -513,3 +513,23 @@ func init() {
 		fmt.Println(string(b))
 	}
 }
+
+func init() {
+	debugHooks["write-baseline"] = func(p *ir.Program) {
+		c := &Ctx{P: p, R: report.New("DBG", "quick")}
+		files := map[string]bool{}
+		for _, l := range anchorFiles {
+			for _, f := range l {
+				files[f] = true
+			}
+		}
+		for _, l := range extraAnchorFiles {
+			for _, f := range l {
+				files[f] = true
+			}
+		}
+		b, _ := json.MarshalIndent(c.writeSigs(callPkgs, func(f string) bool { return files[f] }), "", " ")
+		fmt.Println("BASELINE-BEGIN")
+		fmt.Println(string(b))
+	}
+}
